@@ -30,6 +30,8 @@ def material(root):
     good = vc.must("make_ca", cn="needed root")
     other = vc.must("make_ca", cn="unrelated root")
     m["good_root_pem"] = good["cert_pem"]
+    good2 = vc.must("make_ca", cn="second needed root")
+    m["good2_root_pem"] = good2["cert_pem"]
     for i in range(3):
         m["decoy%d" % i] = vc.must("make_ca", cn="decoy %d" % i)["cert_pem"]
 
@@ -44,6 +46,7 @@ def material(root):
     m["untrusted"] = server("untrusted", other, ["localhost"], ["127.0.0.1"], 86400)
     m["other_host"] = server("other_host", good, ["elsewhere.example.org"], ["192.0.2.77"], 86400)
     m["expired"] = server("expired", good, ["localhost"], ["127.0.0.1"], -3600)
+    m["trusted2"] = server("trusted2", good2, ["localhost"], ["127.0.0.1"], 86400)
     return m
 
 
@@ -75,6 +78,36 @@ def spec_for(i, pt, mat, root, url_host):
     return flowcheck.prepare(sp)
 
 
+def pair_specs(mat, root):
+    """Two endpoints in ONE daemon, each with its own endpoint-level root: trust must not leak from one endpoint to the other.
+    Each endpoint is a point of the specification's grid of its own (conf = {endpoint})."""
+    specs = []
+    d = os.path.join(root, "pairs")
+    os.makedirs(d, exist_ok=True)
+    r1, r2 = os.path.join(d, "root1.pem"), os.path.join(d, "root2.pem")
+    open(r1, "w").write(mat["good_root_pem"])
+    open(r2, "w").write(mat["good2_root_pem"])
+    # (root file of A, server of A, root file of B, server of B): holder of a point = "endpoint" iff the endpoint's file signs its server
+    combos = [("both right", r1, "trusted", r2, "trusted2"), ("crossed", r1, "trusted2", r2, "trusted"),
+              ("A right, B shows A's chain without any root", r1, "trusted", None, "trusted"),
+              ("A without root, B right", None, "trusted2", r2, "trusted2")]
+    for i, (name, ra, sa, rb, sb) in enumerate(combos):
+        for host in ("localhost", "127.0.0.1"):
+            eps, pts = {}, {}
+            for ep, rf, srv in (("A", ra, sa), ("B", rb, sb)):
+                e = {"ca": {"tls": mat[srv], "host": host}}
+                signer = r1 if srv == "trusted" else r2
+                if rf:
+                    e["root_certificates"] = [rf]
+                eps[ep] = e
+                pts[ep] = {"conf": ["endpoint"] if rf else [], "holder": "endpoint" if (rf and rf == signer) else "none", "server": "trusted",
+                           "badsrc": "cli", "filestate": "ok"}
+            certs = [simple_cert("pa%d" % len(specs), endpoint="A"), simple_cert("pb%d" % len(specs), endpoint="B")]
+            specs.append(flowcheck.prepare(dict(tag="C18/p%03d" % len(specs), certs=certs, endpoints=eps, steps=[("run", {"attempts": 1})],
+                                                meta={"family": "two endpoints", "name": name, "pts": pts, "url_host": host})))
+    return specs
+
+
 def run(ctx):
     r = tlc.model_check("Trust", MC_CFG % (tlc.tla_set(LABELS), "{}"), "C18_mc", workers=4, timeout=600, required_actions=["MCNext"])
     if r["violated"]:
@@ -89,10 +122,21 @@ def run(ctx):
     run_pts = pts if ctx.tier == "thorough" else [p for i, p in enumerate(pts) if (i + ctx.seed) % 3 == 0 or (p["server"] == "trusted" and p["holder"] != "none" and p["filestate"] == "ok")]
     specs = [spec_for(i, pt, mat, root, "localhost" if i % 2 == 0 else "127.0.0.1") for i, pt in enumerate(run_pts)]
     results = flows.run_many(specs, workers=12)
+    presults = flows.run_many(pair_specs(mat, root), workers=8)
     lines = []
+    owners = []
+    for x in presults:
+        for ep, pt in sorted(x["meta"]["pts"].items()):
+            cid = [c for c, _ in x["meta"]["flow"].items() if c.startswith("p%s" % ep.lower())][0]
+            reqs = sum(1 for e in x["events"] if e.get("src") == "ca" and e.get("ev") == "CaReq" and e.get("ep") == ep)
+            succ = any(e.get("ev") == "AttemptEnd" and e.get("is_success") and e.get("cert") == cid for e in x["events"])
+            lines.append({"conf": pt["conf"], "holder": pt["holder"], "server": pt["server"], "badsrc": pt["badsrc"], "filestate": pt["filestate"],
+                          "requests": reqs, "success": bool(succ), "handshakes_ok": 0, "handshakes_failed": 0, "pair": x["meta"]["name"], "endpoint": ep})
+            owners.append(x)
     for x in results:
         if any(y["hung"] for y in x["runs"]):
             raise ToolError("daemon hung for %s" % x["meta"]["pt"])
+        owners.append(x)
         pt = x["meta"]["pt"]
         reqs = sum(1 for e in x["events"] if e.get("src") == "ca" and e.get("ev") == "CaReq")
         succ = any(e.get("ev") == "AttemptEnd" and e.get("is_success") for e in x["events"])
@@ -105,17 +149,18 @@ def run(ctx):
     if tv["hard_errors"] or tv["unmatched"] is not None:
         raise ToolError("TLC failed on the trust trace: %s %s (%s)" % (tv["hard_errors"][:2], tv["unmatched"], tv["out_path"]))
     for ln, labs in tv["bad"][:20]:
-        x = results[ln - 1]
+        x = owners[ln - 1]
         rp = save_replay("C18", os.path.basename(x["tag"]), {"point.json": lines[ln - 1], "trace.ndjson": os.path.join(x["world"], "trace.ndjson"),
                                                             "acmed.toml": os.path.join(x["world"], "acmed.toml"), "stderr.txt": x["runs"][0]["stderr_tail"]})
         ctx.verdict.violation("%s at %s" % (labs, lines[ln - 1]), rp)
     trusted = sum(1 for e in lines if e["success"])
     cov = {"states": r["distinct"], "transitions": r["generated"], "traces_validated_against_impl": len(lines),
-           "samples": [lines[0], lines[len(lines) // 2], lines[-1]], "grid_points_in_model": len(pts), "grid_points_run": len(lines),
+           "samples": [lines[0], lines[len(lines) // 2], lines[-1]], "grid_points_in_model": len(pts), "grid_points_run": len(results),
+           "two_endpoint_runs": len(presults),
            "runs_with_requests": sum(1 for e in lines if e["requests"] > 0), "runs_issuing": trusted,
            "tls_handshakes_refused_by_the_daemon": sum(e["handshakes_failed"] for e in lines), "exhaustive": ctx.tier == "thorough",
            "rule": "TLC enumerates configured sources (8 subsets of --root-cert / endpoint / global) x which source holds the needed root x server certificate "
                    "(trusted chain, untrusted chain, other host name, expired) x one configured file unreadable or malformed; each point is run against a TLS-wrapped "
-                   "mock CA with private roots (URL host alternately localhost and 127.0.0.1); requests that reach the CA and issuance are judged by Trust.tla"}
+                   "mock CA with private roots (URL host alternately localhost and 127.0.0.1); requests that reach the CA and issuance are judged by Trust.tla; plus daemons with two endpoints that have different endpoint-level roots (right, crossed, missing): each endpoint is judged as a grid point of its own, so trust must not leak between endpoints of one process"}
     return {"coverage": cov, "assumptions": ["the system trust store does not contain the harness's private roots",
                                             "a request 'reaches the server' when the mock CA logs a decrypted HTTP request after a completed handshake"]}
